@@ -484,4 +484,18 @@ theorem spec_corollaries (op : Op) (w p : Int) (hp : 0 < p) :
   · intro e; subst e; exact hs.2.1
   · intro e; subst e; exact hs.2.2
 
+/-- `Moved` for an operand inside a leap second, spelled out -/
+theorem moved_leap (dt x : NaiveDT) (d : Int) (hl : ¬ NonLeap dt) (h : Moved dt d x) :
+    NDTInv x ∧
+    (dt.time.frac + d < 2000000000 → instNs x = instNs dt + d) ∧
+    (2000000000 ≤ dt.time.frac + d → instNs x = instNs dt + d - 1000000000 ∧ NonLeap x) ∧
+    (¬ NonLeap x ↔ (1000000000 ≤ dt.time.frac + d ∧ dt.time.frac + d < 2000000000)) ∧
+    (TStrict dt.time → TStrict x.time) := by
+  obtain ⟨h1, h2, h3, h4⟩ := h
+  unfold NonLeap at *
+  unfold stamp_after at h2
+  refine ⟨h1, ?_, ?_, by omega, h4⟩
+  · intro hlt; rw [h2, if_neg (by omega)]
+  · intro hge; rw [h2, if_pos (by omega)]; exact ⟨rfl, by omega⟩
+
 end Chrono.Proofs.RoundDt
